@@ -721,6 +721,9 @@ pub fn run(out: &mut Out, tier: &str, seed: u64, prop: &str) {
             "requests-2.26.0.tar.gz", "foo.whl", "x.zip", "a.tar.bz2", "a.tgz", "pkg-1.0.tar.xz", "A.TAR.GZ", "a.tar", "a.tbz", "a.tar.lzma", "dir/a.whl", "~/x", "\\\\server\\share", "foo.tar.gz.sig",
             "${VP_HOME_DIR}/x", "a.tlz", "a.txz", "a.tar.lz", "b.b.zip", "n.gz", "tar.gz", "x.tar.gz2",
             // non-ASCII text: byte lengths and char counts differ
+            // whitespace INSIDE the path / URL (one blank, runs of blanks, non-ASCII blanks): the token goes on until a blank is
+            // followed by `;`, `#` or the end
+            "/srv/wheel house/pkg-1.0-py3-none-any.whl", "/srv/wheel  house/pkg-1.0-py3-none-any.whl", "./a \t b/c.whl", "https://example.org/wheel\u{3000} house/pkg-1.0.whl?tag=\u{e9}", "../x   y\u{a0}\u{a0}z/p.tar.gz",
             "https://x.org/${VP_HOME_DIR}/a.whl", "git+https://h.org/${VP_TOKEN_1}/r.git", "file://${PROJECT_ROOT}/p", "../pr\u{f6}ject/dist", "https://example.org/p/nump\u{f6}.whl", "./\u{65e5}\u{672c}/p.whl", "/abs/\u{1F600}x", "https://example.org/a#egg=nump\u{f6}"];
         let suffixes = ["", "[dev]", " ; os_name == 'a'", "[dev,test] ; python_version > '3'", " [x]", "  ", "\u{a0}; os_name == 'a'", "[dev]\u{3000};os_name == 'a'", "\u{b}", "\u{2003} "];
         // generated: every scheme form x rest, first path segments that are / are not valid names, and
